@@ -293,6 +293,66 @@ func c12Case(r *core.Run, idx int, rng *rand.Rand) {
 	r.Count("follow_up_queries_checked", 1)
 }
 
+// c12Registration: ONE provider; the requester is deregistered / re-registered between queries and users change.
+func c12Registration(r *core.Run, idx int, rng *rand.Rand) {
+	const wl = "registration_changes"
+	e := env.Static(env.Opts{})
+	d := stdSP(0)
+	mustRegister(e.W, d, "appA")
+	registered := true
+	users := []*sim.User{randUser(rng, fmt.Sprintf("U_MK%dax", idx), false), randUser(rng, fmt.Sprintf("U_MK%dbx", idx), false), randUser(rng, fmt.Sprintf("U_MK%dcx", idx), false)}
+	for _, u := range users {
+		e.W.AddUser(u)
+	}
+	for k := 0; k < 8; k++ {
+		switch rng.Intn(4) {
+		case 0:
+			e.W.RemoveSP(d.EntityID)
+			registered = false
+		case 1:
+			mustRegister(e.W, d, "appA")
+			registered = true
+		}
+		u := users[rng.Intn(len(users))]
+		q := conformantQuery(rng, d, u.Username)
+		q.Attrs, q.Destination = nil, ""
+		call := e.Do(env.Req{Method: "POST", Path: env.PathAttr, Body: q.XML(rng), CT: "text/xml"})
+		class := fmt.Sprintf("registration|registered=%v|step=%d", registered, k)
+		r.Eval(fmt.Sprintf("%s|%d", class, idx))
+		r.Count("registration_sequence_queries", 1)
+		viol := func(clause, reason string) {
+			r.Violate(core.Violation{Clause: clause, Class: class, Reason: reason, Workload: wl, Index: idx, Observed: call.Describe()})
+		}
+		if call.Panic != "" {
+			viol("panic", call.Panic)
+			return
+		}
+		leaked := strings.Contains(call.D.FullText(), "U_MK")
+		if !registered {
+			if leaked || call.D.Success() {
+				viol("disclosed_to_deregistered_requester", "user data although the Issuer is no longer registered")
+			}
+			r.Count("deregistered_queries_checked", 1)
+			continue
+		}
+		if !call.D.Success() {
+			viol("registered_requester_refused", fmt.Sprintf("status %d", call.D.Status))
+			continue
+		}
+		want, got := map[string]bool{}, map[string]bool{}
+		for _, a := range refAttributes(u) {
+			want[a.key()] = true
+		}
+		for _, a := range msgAttrs(call.D.Msg) {
+			got[a.key()] = true
+		}
+		if df := setDiff(want, got); df != "" || call.D.Msg.NameID != u.Username {
+			viol("answer_not_exactly_the_queried_user", fmt.Sprintf("NameID %q (queried %q): %s", call.D.Msg.NameID, u.Username, df))
+		}
+		r.Count("registered_queries_checked", 1)
+	}
+}
+
 func firstRefusal(issuerReg bool, dest, sig, subj string) string {
 	switch {
 	case !issuerReg:
@@ -333,7 +393,7 @@ func init() {
 		TimeoutQuick: 5 * time.Minute, TimeoutThorough: 30 * time.Minute,
 		Build: func(c *Ctx) []core.Workload {
 			r := c.Run
-			r.Rule = "SOAP attribute queries with labelled Issuer (registered / unregistered), Destination (absent / advertised attribute service / SSO location / foreign / another host's), signature (none / valid / invalid / unregistered key), subject (known / other user / unknown) and 0-6 requested attributes (matching, name-only, format-only, duplicates, near misses) against random user records; static and host-derived issuers. Monitor: any user canary in a reply implies registered Issuer, no non-verifying signature, acceptable Destination; answered queries: lookup argument, NameID, InResponseTo, Audience, Issuer, attribute set = reference filter (as sets), assertion signature verified by V1 and V2. Distinct = label tuple."
+			r.Rule = "SOAP attribute queries with labelled Issuer (registered / unregistered), Destination (absent / advertised attribute service / SSO location / foreign / another host's), signature (none / valid / invalid / unregistered key), subject (known / other user / unknown) and 0-6 requested attributes (matching, name-only, format-only, duplicates, near misses) against random user records; static and host-derived issuers. Monitor: any user canary in a reply implies registered Issuer, no non-verifying signature, acceptable Destination; answered queries: lookup argument, NameID, InResponseTo, Audience, Issuer, attribute set = reference filter (as sets), assertion signature verified by V1 and V2. A second workload keeps ONE provider alive while the requester is deregistered / re-registered and the queried users alternate. Distinct = label tuple."
 			r.Assume("assertion signatures over strings that canonical XML must escape are judged by C04 (known finding D6), not here")
 			r.Require("answered_queries", 100)
 			r.Require("filter_excluded_something", 30)
@@ -341,7 +401,12 @@ func init() {
 			r.Require("refused_destination", 20)
 			r.Require("signatures_verified", 50)
 			r.Require("follow_up_queries_checked", 50)
-			return []core.Workload{{Name: "attribute_queries", N: c.Pick(900, 9000), Fn: c12Case}}
+			r.Require("deregistered_queries_checked", 100)
+			r.Require("registered_queries_checked", 100)
+			return []core.Workload{
+				{Name: "attribute_queries", N: c.Pick(900, 9000), Fn: c12Case},
+				{Name: "registration_changes", N: c.Pick(150, 1500), Fn: c12Registration},
+			}
 		},
 		After: func(c *Ctx) { verify.Py.Close() },
 	})
